@@ -41,6 +41,29 @@ theorem sortVals_pairwise (l : List α) : (sortVals l).Pairwise (· ≤ ·) := b
 omit [LinearOrder α] [LawfulVal α] in
 theorem sortVals_perm (l : List α) : (sortVals l).Perm l := List.mergeSort_perm _ _
 
+omit [Val α] [LawfulVal α] in
+theorem getLastD_mem (rest : List α) (v0 : α) : rest.getLastD v0 ∈ v0 :: rest := by
+  induction rest generalizing v0 with
+  | nil => simp
+  | cons a as ih =>
+    have := ih a
+    simp only [List.getLastD_cons]
+    exact List.mem_cons_of_mem _ this
+
+omit [Val α] [LawfulVal α] in
+theorem le_getLastD (rest : List α) (v0 : α) (h : (v0 :: rest).Pairwise (· ≤ ·)) :
+    ∀ x ∈ v0 :: rest, x ≤ rest.getLastD v0 := by
+  induction rest generalizing v0 with
+  | nil => intro x hx; simp at hx; simp [hx]
+  | cons a as ih =>
+    intro x hx
+    simp only [List.getLastD_cons]
+    have h' := List.pairwise_cons.mp h
+    rcases List.mem_cons.mp hx with hx | hx
+    · subst hx
+      exact h'.1 _ (getLastD_mem as a)
+    · exact ih a h'.2 x hx
+
 /-- invariant of the scan: after the prefix `pre` (non-empty, ending in a run of `val`),
 `count` is the multiplicity of `val`, `(mv, mc)` is the smallest most frequent value of `pre`
 with its multiplicity. The result has the same property for `pre ++ rest`. -/
